@@ -469,13 +469,22 @@ _WATCH: Dict[str, Any] = {"world": None, "installed": False}
 LINE_BUDGET = 3000
 
 
+class Budget:
+    """Watchdog for harnesses that run on the real pool / loop: total scheduler lines per path."""
+
+    def __init__(self, limit: int = 300000):
+        self.lines = 0
+        self.line_budget = limit
+
+
 def _line_cb(code: Any, line: int) -> Any:
     w = _WATCH["world"]
     if w is not None:
         w.lines += 1
-        if w.lines > LINE_BUDGET:
+        if w.lines > getattr(w, "line_budget", LINE_BUDGET):
+            n = w.lines
             w.lines = 0
-            raise Spin("scheduler executed %d lines without an environment event (at %s:%d)" % (LINE_BUDGET, code.co_name, line))
+            raise Spin("scheduler executed %d lines without progress (at %s:%d)" % (n, code.co_name, line))
     return None
 
 
